@@ -24,16 +24,32 @@ def database_fields(ctx):
 
 def canon(v, fn, an):
     """site-free, local-name based rendering of a value, comparable across functions"""
+    # calls with side effects on their receiver (iterator next()) are told apart by their order in the function
+    ordinals = {}
+    by_callee = {}
+    for b, info in an.term.items():
+        if info.get("kind") == "call" and info.get("site") is not None and info.get("callee"):
+            by_callee.setdefault(info["callee"], []).append((len(an.cfg.dominators(b)), info["sp"]["l"], info["sp"]["c"], b))
+    for callee, lst in by_callee.items():
+        for n, (_, _, _, b) in enumerate(sorted(lst)):
+            ordinals[(callee, b)] = n
+
     def c(x):
         if not isinstance(x, tuple) or not x:
             return x
         t = x[0]
         if t == "call":
+            site = x[3] if len(x) > 3 else None
+            if site is not None and site[0] == fn.path and x[1].endswith("::next"):
+                return ("call", x[1], tuple(c(a) for a in x[2]), "#%d" % ordinals.get((x[1], site[1]), -1))
             return ("call", x[1], tuple(c(a) for a in x[2]))
         if t == "clob":
             site = x[1]
             info = an.term.get(site[1]) if site and site[0] == fn.path else None
             return ("clob", (info["callee"] if info else "?"), x[2])
+        if t == "agg" and isinstance(x[1], str) and x[1].startswith("closure:"):
+            # closures are named relative to their parent function
+            return ("agg", "closure:" + x[1].rsplit("::", 1)[-1], tuple(c(a) for a in x[2]))
         if t == "phi":
             return ("phi", c(x[2]))
         if t == "local":
@@ -155,6 +171,36 @@ def mirror(ctx, s):
             s.add("S-MIRROR", d1, "table", t, info["sp"], PROVED,
                   "same key builder (%s), same arguments, same enclosing conditions in index() and deindex" % key_builder(ps[0][0]), b)
     ctx.floor("C17.mirrored-tables", len(tables), 7)
+    # every single-letter tag that has a value is indexed: the puts on the tag tables are conditioned on the
+    # name's length and on the presence of a value only, never on the value itself
+    an_ins = ctx.E.an(ins)
+    for b, info, table, key, conds in puts:
+        if table not in ("tc_index", "atc_index", "ktc_index"):
+            continue
+        # the value argument of the key builder
+        kb = find_values(key, lambda x: x[0] == "call" and x[1].rsplit("::", 1)[-1].startswith("key_"))
+        vals = []
+        if kb:
+            for a in kb[0][2]:
+                if a[0] == "proj" and contains_value(a, lambda x: x[0] == "call" and x[1].endswith("::next")):
+                    vals.append(a)
+        bad = False
+        for v in vals:
+            y = v
+            while y[0] == "proj":
+                y = y[1]
+            if not (y[0] == "call" and y[1].endswith("::next") and y[1].startswith("pocket_types::tags::")):
+                bad = True      # the value went through something (filter, map, ...) before being indexed
+        for c in conds:
+            if c[0] == "variant":
+                continue
+            txt = repr(c)
+            for v in vals:
+                if repr(v) in txt:
+                    bad = True
+        s.add("S-COVER", ins, "every-tag-value-indexed", table, info["sp"], PROVED if (vals and not bad) else VIOLATION,
+              "entries are written for every single-letter tag with a value, whatever the value is" if (vals and not bad) else
+              "whether a tag is indexed in %s depends on its value: events carrying such values cannot be found (or replaced) through this table" % table, b)
     return puts, dels
 
 
